@@ -137,6 +137,7 @@ def gen_program(rng, family="core", nfn=None):
     durs = {
         "core": [0, 0, 0, 1, 2],
         "dur": [0, 1, 2, 2, 3],
+        "churn": [0],
     }.get(family, [0, 0, 1, 2])
     inputs = [[[rng.randrange(nv), rng.choice(durs)], [rng.randrange(nv), rng.choice(durs)]] for _ in range(nin)]
     kinds_pool = {
@@ -160,7 +161,7 @@ def gen_program(rng, family="core", nfn=None):
         "spec": ["in", "in", "call", "new", "new", "fld", "calls", "spec", "spec"],
         "intern": ["in", "in", "call", "intern", "intern", "rdint", "calli"],
         "accum": ["in", "in", "call", "call", "acc", "acc"],
-        "churn": ["in", "in", "in", "call", "intern", "intern", "rdint", "calli", "new", "fld", "calls"],
+        "churn": ["in", "in", "in", "call", "call", "intern", "intern", "intern", "rdint", "calli", "new", "fld"],
         "mixed": ["in", "in", "call", "call", "cell", "new", "fld", "calls", "intern", "rdint", "acc"],
     }[family]
     fns = [None] * nfn
@@ -177,13 +178,19 @@ def gen_program(rng, family="core", nfn=None):
             "nv": nv, "nin": nin, "ncell": ncell, "callees": callees, "ops": base_ops,
             "p_leaf": 0.2, "exports": exports,
             "sfams": [3, 3, 1] if family == "spec" else [1, 2],
-            "ikinds": [1, 1, 2, 3, 4] if family == "intern" else ([1, 1, 1, 2, 2, 3] if family == "churn" else [1, 2, 3, 4]),
-            "nint": 8 if family == "churn" else 3,
+            "ikinds": [1, 1, 2, 3, 4] if family == "intern" else ([1, 1, 1, 1, 2, 2] if family == "churn" else [1, 2, 3, 4]),
+            "nint": 5 if family == "churn" else 3,
             "nident": 3 if family == "churn" else 2,
         }
         tr = Tree()
-        build(rng, spec, rng.choice([2, 3, 3, 4]), tr, {"nh": 0, "ni": 0})
-        fwd = 1 if family in ("struct", "churn", "intern", "mixed") and rng.random() < 0.35 else 0
+        if family == "churn":
+            # root: an input read, so that everything interned/created below is LOW-durable (reclaimable)
+            root = tr.add(None)
+            kids = [build(rng, spec, rng.choice([2, 3, 3]), tr, {"nh": 0, "ni": 0}) for _ in range(nv)]
+            tr.nodes[root - 1] = node("in", rng.randrange(nin) + 1, rng.randrange(2) + 1, 0, kids)
+        else:
+            build(rng, spec, rng.choice([2, 3, 3, 4]), tr, {"nh": 0, "ni": 0})
+        fwd = 1 if family in ("struct", "churn", "intern", "mixed") and rng.random() < (0.6 if family == "churn" else 0.35) else 0
         fns[j - 1] = {"kind": kind, "init": 0, "fwd": fwd, "nodes": tr.nodes}
         exports[j] = max_exports(tr.nodes) + (sum(exports.get(g, 0) for g in callees) if fwd else 0)
     sfns = []
@@ -320,6 +327,88 @@ def gen_cycle_program(rng, family):
     raise ValueError(family)
 
 
+def gen_reclaim_program(rng):
+    """Template family for reclamation of interned values / tracked structs held by rarely requested queries.
+
+    f1 = P  forwards the handles of f2 (and maybe reads them)         -- requested rarely
+    f2 = Q  interns a value / creates a struct depending on input 1   -- only reached through P
+    f3.. = R  intern values (overlapping with Q's) depending on input 2 -- requested in most revisions
+    """
+    k = rng.choice([1, 1, 1, 2, 2, 3])
+    dom = rng.choice([3, 4])
+    nin = 2
+
+    def interns(n):
+        return [rng.randrange(dom) for _ in range(n)]
+
+    def chain(ops, tail):
+        """ops: list of (op, a, b) executed in sequence, then `tail` node list appended"""
+        nodes = []
+        for (op, a, b) in ops:
+            nodes.append(node(op, a, b, 0, [len(nodes) + 2]))
+        base = len(nodes)
+        for t in tail:
+            t = dict(t)
+            t["kids"] = [x + base for x in t["kids"]]
+            nodes.append(t)
+        return nodes
+
+    def q_body():
+        # in(1,f) -> branch: intern different values (and maybe a struct), return
+        f = rng.randrange(2) + 1
+        nodes = [node("in", 1, f, 0, [2, 4])]
+        for v in interns(2):
+            ops = [("intern", k, v)]
+            nodes.append(node("intern", k, v, 0, [len(nodes) + 2]))
+            nodes.append(node("ret", rng.randrange(2)))
+        return nodes
+
+    def r_body():
+        f = rng.randrange(2) + 1
+        nodes = [node("in", 2, f, 0, [2, 5])]
+        for _ in range(2):
+            vs = interns(2)
+            nodes.append(node("intern", k, vs[0], 0, [len(nodes) + 2]))
+            nodes.append(node("intern", rng.choice([k, k, 1]), vs[1], 0, [len(nodes) + 2]))
+            nodes.append(node("ret", rng.randrange(2)))
+        return nodes
+
+    # P: call Q, optionally read the forwarded handle, return
+    if rng.random() < 0.5:
+        p_nodes = [node("call", 2, 0, 0, [2, 2]), node("rdint", 1, 0, 0, [3, 4, 3, 4]), node("ret", 0), node("ret", 1)]
+    else:
+        p_nodes = [node("call", 2, 0, 0, [2, 3]), node("ret", 0), node("ret", 1)]
+    fns = [{"kind": "plain", "init": 0, "fwd": 1, "nodes": p_nodes},
+           {"kind": rng.choice(["plain", "q2"]), "init": 0, "fwd": 0, "nodes": q_body()}]
+    for _ in range(rng.choice([1, 2])):
+        fns.append({"kind": "plain", "init": 0, "fwd": rng.choice([0, 1]), "nodes": r_body()})
+    ifn = [node("rdint", 1, 0, 0, [2, 3, 2, 3]), node("ret", 0), node("ret", 1)]
+    sf = [node("ret", 0)]
+    return {"nv": 2, "inputs": [[[rng.randrange(2), 0], [rng.randrange(2), 0]] for _ in range(nin)], "cells": [],
+            "fns": fns, "sfns": [{"kind": "splain", "init": 0, "nodes": sf}] * 2 + [{"kind": "sspec", "init": 0, "nodes": sf}],
+            "ifns": [{"kind": "iplain", "init": 0, "nodes": ifn}], "lru_cap": 2}
+
+
+def gen_reclaim_history(rng, prog, nops):
+    nfn = len(prog["fns"])
+    hist = [{"op": "get", "f": 1}]
+    for _ in range(nops):
+        r = rng.random()
+        if r < 0.40:
+            hist.append({"op": "set", "i": 2, "f": rng.randrange(2) + 1, "v": rng.randrange(2), "d": -1})
+        elif r < 0.78:
+            hist.append({"op": "get", "f": rng.randrange(3, nfn + 1)})
+        elif r < 0.84:
+            hist.append({"op": "synth", "d": 0})
+        elif r < 0.90:
+            hist.append({"op": "set", "i": 1, "f": rng.randrange(2) + 1, "v": rng.randrange(2), "d": -1})
+        elif r < 0.97:
+            hist.append({"op": "get", "f": 1})
+        else:
+            hist.append({"op": "get", "f": 2})
+    return hist
+
+
 CYCLE_FAMILIES = ("fix", "fb", "pcycle", "diverge")
 
 
@@ -347,11 +436,18 @@ def gen_history(rng, prog, nops, family="core"):
     dchoices = {
         "core": [-1, -1, -1, 0, 1, 2],
         "dur": [-1, -1, 0, 1, 2, 2, 3],
+        "churn": [-1],
     }.get(family, [-1, -1, -1, 0, 1, 2])
-    for _ in range(nops):
+    focus = list(range(1, nfn + 1))
+    for n in range(nops):
         o = rng.choice(ops)
+        if family == "churn" and n % 10 == 0:
+            # phases: for a while only a few functions are requested, so others go unvalidated for
+            # several revisions (their interned values / structs become stale and get reclaimed)
+            focus = rng.sample(range(1, nfn + 1), rng.choice([1, 1, 2]) if nfn > 1 else 1)
         if o == "get":
-            hist.append({"op": "get", "f": rng.randrange(nfn) + 1})
+            f = rng.choice(focus) if rng.random() < 0.85 else rng.randrange(nfn) + 1
+            hist.append({"op": "get", "f": f})
         elif o == "set":
             hist.append({"op": "set", "i": rng.randrange(nin) + 1, "f": rng.randrange(2) + 1,
                          "v": rng.randrange(2 if family in CYCLE_FAMILIES else nv), "d": rng.choice(dchoices)})
@@ -375,8 +471,12 @@ def gen_jobs(seed, njobs, family, nops):
     rng = random.Random(seed)
     jobs = []
     for n in range(njobs):
-        prog = gen_cycle_program(rng, family) if family in CYCLE_FAMILIES else gen_program(rng, family)
-        hist = gen_history(rng, prog, nops, family)
+        if family == "reclaim":
+            prog = gen_reclaim_program(rng)
+            hist = gen_reclaim_history(rng, prog, nops)
+        else:
+            prog = gen_cycle_program(rng, family) if family in CYCLE_FAMILIES else gen_program(rng, family)
+            hist = gen_history(rng, prog, nops, family)
         jobs.append({"id": n + 1, "prog": prog, "hist": hist, "inject": 0, "seed": seed, "mode": family})
     return jobs
 
